@@ -431,3 +431,12 @@ def run(rep, repo, tier):
   rep.require_instances("R3", 60)
   rep.require_instances("R4", 20)
   rep.require_instances("R5", 500)
+
+  # R20: construction history (shared with C09 R10): every option
+  # alternative of these classes is built and used first in ONE interpreter;
+  # each configuration then computes / prints / rebuilds what it does alone
+  from . import c09 as _c09
+  from .. import qref as _qref
+  if _c09.rule_construction_history(
+      rep, repo, repo.module(quant.QMOD), ('quantized_bits', 'quantized_linear'), "R20") < 5:
+    raise AnalysisError("instance-count construction histories")
